@@ -43,6 +43,8 @@ type Pkg struct {
 	// emission model of Vector (vocab.go / semit.go)
 	emitModel *EmitModel
 	pm        *parseModel
+	api       *apiScope
+	varWritten map[*types.Var]bool
 }
 
 type World struct {
